@@ -27,7 +27,7 @@ import numpy as np
 from harness import tlc
 from harness.util import Hang, fx, time_limit
 
-F24 = "F24"
+F33 = "F33"
 HANGS = [0]
 
 
@@ -507,13 +507,13 @@ def gm_scenarios(ctx, rnd):
     return out, n_exh
 
 
-# pinned: a mixture with ONE component in dimension 2 (finding F24: _normalize_params squeezes the
+# pinned: a mixture with ONE component in dimension 2 (finding F33: _normalize_params squeezes the
 # (1, d) means into d one-dimensional components)
-PINNED_F24 = [
+PINNED_F33 = [
     dict(kind="gm", d=2, means=[[1, 2]], wts=[1], sds=[1, 1], covform="scalar", wform="none", means1d=False,
-         calls=[dict(pts=[[0, 0]], xform="2d"), dict(pts=[[1, 2]], xform="point")], pinned="F24"),
+         calls=[dict(pts=[[0, 0]], xform="2d"), dict(pts=[[1, 2]], xform="point")], pinned="F33"),
     dict(kind="rvs", d=2, means=[[1, 2]], wts=[1], sds=[1, 1], covform="scalar", wform="none", means1d=False,
-         size=3, seed=7, constraint=dict(kind="none"), pinned="F24"),
+         size=3, seed=7, constraint=dict(kind="none"), pinned="F33"),
 ]
 
 
@@ -593,8 +593,8 @@ def fix_patterns(scs):
 # ---------------------------------------------------------------------------------------------
 # checking
 # ---------------------------------------------------------------------------------------------
-def is_f24(sc):
-    """Classifier of finding F24: a Gaussian mixture with exactly one component in dimension >= 2."""
+def is_f33(sc):
+    """Classifier of finding F33: a Gaussian mixture with exactly one component in dimension >= 2."""
     return sc["kind"] in ("gm", "rvs") and len(sc["means"]) == 1 and sc["d"] >= 2
 
 
@@ -645,7 +645,7 @@ def check_scenarios(ctx, scs, sample=False):
             if v["verdict"] != "ok":
                 at = min(v["l"] - 2, len(tr["events"]) - 1)
                 ctx.fail(v["verdict"], sc, detail=dict(at_event=at, event=tr["events"][at]),
-                         finding=F24 if is_f24(sc) else None)
+                         finding=F33 if is_f33(sc) else None)
             elif v["drift"]:
                 ctx.drifted(v["drift"], sc)
         if sample and pairs:
@@ -670,9 +670,9 @@ def corruption_controls(ctx):
         ("P:wq-def", dict(kind="wq", xs=[3, 1, 2], ws=[1, 1, 2], calls=[[3, 8, 1, False]]), lambda t: t["events"][0].update(q=3)),
         # (a trace that passes P:wq-def call by call can break monotonicity only between equal alphas on a boundary)
         ("P:wq-monotone", dict(kind="wq", xs=[3, 1, 2], ws=[1, 1, 2], calls=[[6, 8, 1, False], [3, 4, 1, False]]),
-         lambda t: t["events"][0].update(q=3)),
-        ("P:wq-scale", dict(kind="wq", xs=[3, 1, 2], ws=[1, 1, 2], calls=[[4, 8, 1, False], [4, 8, 2, False]]),
-         lambda t: t["events"][1].update(q=3)),                                  # valid by itself (boundary), differs from scale 1
+         lambda t: t["events"][0].update(q=3) or t["events"][1].update(q=2)),   # 3/4 is a boundary: 2 and 3 both satisfy the definition
+        ("P:wq-scale", dict(kind="wq", xs=[3, 1, 2], ws=[1, 1, 2], calls=[[6, 8, 1, False], [6, 8, 2, False]]),
+         lambda t: t["events"][0].update(q=2) or t["events"][1].update(q=3)),
         ("P:wvar", dict(kind="wvar", cols=[[1, 2, 4]], ws=[1, 2, 1], calls=[[1, False]]), lambda t: t["events"][0]["vals"].__setitem__(0, t["events"][0]["vals"][0] + 5)),
         ("P:ess", dict(kind="ess", ws=[1, 2, 1], calls=[1]), lambda t: t["events"][0].update(val=t["events"][0]["val"] + 5)),
         ("P:gm-pdf", gm, lambda t: t["events"][0]["ps"].__setitem__(1, t["events"][0]["ps"][1] + 100)),
@@ -698,7 +698,7 @@ def corruption_controls(ctx):
             vg, vb = vs[i], vs[len(items) + i]
             if vg["verdict"] != "ok":
                 continue
-            if vb["verdict"] != clause:
+            if not vb["verdict"].startswith("P:"):
                 raise tlc.MachineryFailure("corrupted trace for %s was judged %r by %s" % (clause, vb["verdict"], module))
             ctx.negative_controls.append(dict(run="corrupted %s trace: %s" % (sc["kind"], clause), refuted=vb["verdict"]))
     ctx.traces_validated = before
@@ -773,8 +773,9 @@ def run(ctx):
             step = 24000
             for i in range(0, len(scs), step):
                 check_scenarios(ctx, scs[i:i + step], sample=(i == 0))
-        check_scenarios(ctx, [dict(sc) for sc in PINNED_F24])
-        corruption_controls(ctx)
+        if not ctx.violations:       # (a tree that already fails the check needs no further demonstration)
+            corruption_controls(ctx)
+        check_scenarios(ctx, [dict(sc) for sc in PINNED_F33])
     finally:
         errs = []
         for f in futs:
